@@ -67,9 +67,9 @@ CFG = {
                       "(accepted by Config::verify, never used: MUX_CONFIG has 16 kB) the DATA split loop does not terminate. "
                       "tools/src/config.rs readers (local config files) are neither modelled nor fuzzed. mux::Handshake::read is "
                       "modelled and exercised through Mux::run only (the type is private to mux).",
-        "harness": ["c10", "c05"],
-        "scope": {"c05": {"oracle_only": "panicked", "ignore_k": True}},
-        "n": {"quick": [2500, 1200], "thorough": [60000, 12000]},
+        "harness": ["c10", "c05", "cepoch"],
+        "scope": {"c05": {"oracle_only": "panicked", "ignore_k": True}, "cepoch": {"oracle_only": "^panic", "ignore_k": True}},
+        "n": {"quick": [2500, 1200, 3000], "thorough": [60000, 12000, 60000]},
         "timeout": {"quick": 900, "thorough": 7200},
         "rule": "op families: std leaves on the full boundary grid of (seconds, nanos), (size, bytes), (ip length, port) plus "
                 "random; 4N structure-aware message trees over the 56 decoders (descriptor-driven: fields absent with "
